@@ -44,6 +44,30 @@ IRREGULAR = {"nan_to_num_nan", "nan_to_num_inf", "clamp_max", "clamp_min", "copy
              "atan2_00", "pow_neg", "log0", "log_neg", "domain_arccos", "domain_arcsin", "domain_arccosh"}
 
 
+_CONV = None
+
+
+def _conventions():
+    """"operation:convention" pairs that the pinned tree meets at regular operands (timelike, forward, off-axis, positive
+    factors): the documented limitations of the symbolic backend, operation by operation (vmon/sympy_conventions.json,
+    collected with tools/collect_sympy_conventions.sh over both tiers and several seeds)"""
+    global _CONV
+    if _CONV is None:
+        import json
+        import os
+
+        with open(os.path.join(os.path.dirname(os.path.dirname(os.path.abspath(__file__))), "sympy_conventions.json")) as f:
+            _CONV = set(json.load(f)["pairs"])
+        if os.environ.get("VERIF_C08_COLLECT"):
+            _CONV = _Everything()
+    return _CONV
+
+
+class _Everything:
+    def __contains__(self, x):
+        return True
+
+
 def plan(tier, seed):
     items = [it for it in W.cost_table() if it[0] not in SKIP]
     items = [(n, d, c) for n, d, c in items]
@@ -191,9 +215,18 @@ def run_shard(spec, tier, seed):
                             except Exception:
                                 res.count("skip_numeric_raises")
                                 continue
-                            if WITNESS.events.keys() & IRREGULAR:
-                                res.count("skip_point_uses_convention:" + ",".join(sorted(WITNESS.events.keys() & IRREGULAR)))
+                            irr = sorted(WITNESS.events.keys() & IRREGULAR)
+                            unlisted = [ev for ev in irr if f"{op.name}:{ev}" not in _conventions()]
+                            for ev in irr:
+                                res.add_to("conventions_met_at_regular_operands", f"{op.name}:{ev}")
+                            if irr and not unlisted:
+                                res.count("skip_point_uses_convention:" + ",".join(irr))
                                 continue
+                            if unlisted:
+                                # the numeric evaluation of this operation met a convention (clamp, NaN replacement, sign) at a
+                                # timelike, forward, off-axis point where the pinned tree meets none: not one of the documented
+                                # limitations, so the point is compared like any other
+                                res.count("point_meets_unlisted_convention_compared_anyway")
                             subs = dict(zip(ssyms, [to_rational(c) for c in self_l.exact_coords()]))
                             # the mp operands carry 60-digit coordinates; substitute those exact dyadics
                             for a in args:
@@ -237,7 +270,8 @@ def run_shard(spec, tier, seed):
                             if not ok:
                                 res.violation(f"C08/expression-disagrees-with-numeric-backend op={op.name}",
                                               {"cell": cell, "why": why, "expr": str(sres)[:400], "self": self_l.describe(),
-                                               "args": [E.describe_arg(a) for a in args]})
+                                               "args": [E.describe_arg(a) for a in args],
+                                               **({"numeric_path_met_convention_not_among_the_documented_limitations_of_this_operation": unlisted} if unlisted else {})})
                                 break
                             # and the float64 object backend on the same (rounded) point
                             try:
@@ -451,4 +485,5 @@ def finalize(total, tier, seed):
     if missing:
         total.inconc(f"operations never compared symbolically: {missing[:10]}")
     return {"operations_compared": len(ops_seen), "skipped_by_design": sorted(SKIP),
-            "irregular_points_skipped": {k: v for k, v in total.counters.items() if k.startswith("skip_point_uses_convention")}}
+            "irregular_points_skipped": {k: v for k, v in total.counters.items() if k.startswith("skip_point_uses_convention")},
+            "conventions_met_at_regular_operands": sorted(total.sets.get("conventions_met_at_regular_operands", ()))}
